@@ -271,10 +271,7 @@ def _cog_block_compressor_yxs(
     if predictor is not None:
         block = predictor(block, axis=1)
     if encoder:
-        try:
-            return encoder(block, **kw)
-        except Exception:  # pylint: disable=broad-except
-            return b""
+        return encoder(block, **kw)
 
     return bytes(block.data)
 
@@ -307,10 +304,7 @@ def _cog_block_compressor_syx(
         block = predictor(block, axis=1)
 
     if encoder:
-        try:
-            return encoder(block, **kw)
-        except Exception:  # pylint: disable=broad-except
-            return b""
+        return encoder(block, **kw)
 
     return bytes(block.data)
 
